@@ -106,7 +106,8 @@ inductive Event
 abbrev SegState := List (Nat × List Bytes)
 
 def SegState.get (s : SegState) (a : Nat) : List Bytes := ((s.find? (·.1 == a)).map (·.2)).getD []
-def SegState.set (s : SegState) (a : Nat) (g : List Bytes) : SegState := (a, g) :: s.filter (·.1 != a)
+def SegState.erase (s : SegState) (a : Nat) : SegState := s.filter (·.1 != a)
+def SegState.set (s : SegState) (a : Nat) (g : List Bytes) : SegState := (a, g) :: s.erase a
 
 def apidOf (b : Bytes) : Nat := match extractBits b 5 11 with | .ok v => v | .error _ => 0
 def seqFlags (b : Bytes) : Nat := match extractBits b 16 2 with | .ok v => v | .error _ => 0
@@ -122,33 +123,39 @@ def combineSegments (secHdr : Nat) : List Bytes → Bytes
   | [] => []
   | first :: later => first ++ (later.map (fun p => p.drop (HEADER_LENGTH_BYTES + secHdr))).flatten
 
+/-- The segmentation `if/elif` chain for one raw packet: new per-APID state, `some parts` when a packet made of
+    these raw packets is to be parsed now (`none` = `continue`), and the warnings issued. -/
+def segStep (o : GenOpts) (seg : SegState) (b : Bytes) : SegState × Option (List Bytes) × List Event :=
+  if !o.combine || seqFlags b == 3 then (seg, some [b], [])
+  else if seqFlags b == 1 then (seg.set (apidOf b) [b], none, [])
+  else if (seg.get (apidOf b)).isEmpty then (seg, none, [.warnNoStart])
+  else if seqFlags b == 0 then (seg.set (apidOf b) (seg.get (apidOf b) ++ [b]), none, [])
+  else
+    let segments := seg.get (apidOf b) ++ [b]
+    let seg2 := seg.erase (apidOf b)
+    if !consecutiveCounts (segments.map seqCount) then (seg2, none, [.warnSequence])
+    else (seg2, some segments, [])
+
+/-- What happens with the result of parsing one packet: the events, and whether the generator goes on. -/
+def deliver (o : GenOpts) : ParseResult → List Event × Bool
+  | .error e => ([.raised e], false)
+  | .unrecognized part => (if o.yieldUnrec then [.unrec part] else [], true)
+  | .ok p =>
+    if p.raw.pos ≠ p.raw.data.length * 8 then
+      ([.warnLength] ++ (if o.parseBad then [.packet p] else []), true)
+    else ([.packet p], true)
+
 /-- What the body of the `for raw_packet_data in ccsds_generator(...)` loop does with one raw packet:
     new segmentation state, the events it produces, and whether the generator goes on. -/
 def genStep (d : Definition) (root : String) (o : GenOpts) (seg : SegState) (b : Bytes) :
     SegState × List Event × Bool :=
   if o.headersOnly then (seg, [.rawPacket b], true)
   else
-    -- segmentation `if/elif` chain: `some data` = parse now, `none` = continue with these events
-    let (seg', toParse, evs) : SegState × Option Bytes × List Event :=
-      if !o.combine || seqFlags b == 3 then (seg, some b, [])
-      else if seqFlags b == 1 then (seg.set (apidOf b) [b], none, [])
-      else if (seg.get (apidOf b)).isEmpty then (seg, none, [.warnNoStart])
-      else if seqFlags b == 0 then (seg.set (apidOf b) (seg.get (apidOf b) ++ [b]), none, [])
-      else
-        let segments := seg.get (apidOf b) ++ [b]
-        let seg2 := seg.filter (·.1 != apidOf b)
-        if !consecutiveCounts (segments.map seqCount) then (seg2, none, [.warnSequence])
-        else (seg2, some (combineSegments o.secHdrBytes segments), [])
-    match toParse with
-    | none => (seg', evs, true)
-    | some data =>
-      match parsePacket d root data with
-      | .error e => (seg', evs ++ [.raised e], false)
-      | .unrecognized part => (seg', evs ++ (if o.yieldUnrec then [.unrec part] else []), true)
-      | .ok p =>
-        if p.raw.pos ≠ p.raw.data.length * 8 then
-          (seg', evs ++ [.warnLength] ++ (if o.parseBad then [.packet p] else []), true)
-        else (seg', evs ++ [.packet p], true)
+    match segStep o seg b with
+    | (seg', none, evs) => (seg', evs, true)
+    | (seg', some parts, evs) =>
+      let (evs2, go) := deliver o (parsePacket d root (combineSegments o.secHdrBytes parts))
+      (seg', evs ++ evs2, go)
 
 def genLoop (d : Definition) (root : String) (o : GenOpts) : SegState → List Bytes → List Event
   | _, [] => []
